@@ -21,7 +21,7 @@ STUBS = ["scheduler (sim/simsched.cpp: decides which real thread runs at every b
 # batches: (engine, flavour, cache_size, runs_quick, runs_thorough)
 CHECKS = {
     "C06": {
-        "batches": [("C06", "asan", 4, 4000, 400000)],
+        "batches": [("C06", "asan", 4, 4000, 150000)],
         "rule": ("one evaluation = one simulated run: 1-6 processor instances (24 kinds: FirFilter R/C, FftFilter R/C, FIRDecimator, FIRInterpolator, "
                  "FIRRateConverter, FIRResampler, Delay R/C, MedianFilter, MAFilter R/C, HilbertFilter, Tuner, Agc R/C, Compressor, Limiter, NoiseGate, "
                  "LMS/NLMS R/C, RLS R/C) with seeded parameters, streams and framings, interleaved on 1-4 simulated threads with churn. "
@@ -33,7 +33,7 @@ CHECKS = {
                         "frames are non-empty multiples of the documented granule"],
     },
     "C14": {
-        "batches": [("C14", "asan", 4, 6000, 400000)],
+        "batches": [("C14", "asan", 4, 6000, 200000)],
         "rule": ("one evaluation = one simulated run of 1-3 streams: Tuner (fs 8..1e5, integer / half-integer / rational / arbitrary fractional f with "
                  "|f| <= fs/2, stream of 2..7 x fs samples so that the internal counter wraps several times) or HilbertFilter (requested length 31..401 "
                  "odd and even), each cut into frames by the transport. Non-trivial: Tuner stream with >= 1 counter wrap and >= 2 frames, or Hilbert "
@@ -43,7 +43,7 @@ CHECKS = {
                         "hilbert() and the 1e-3 quadrature accuracy of the designed filter are pure numerics and are NOT decided by this check"],
     },
     "C20": {
-        "batches": [("C20", "asan", 4, 20000, 1500000)],
+        "batches": [("C20", "asan", 4, 20000, 400000)],
         "rule": ("one evaluation = one simulated run of one processor (Compressor / Limiter / NoiseGate / Agc) with seeded parameters over the property's grid, "
                  "driven by 0-12 environment events on the sample clock (level steps biased to the knee edges +-0.01 dB, noise, silence, bursts, ramps) "
                  "followed by a quiet period at constant envelope of >= 10 time constants (+ hold); arbitrary framing. Every run is non-trivial (invariants are "
@@ -58,7 +58,7 @@ CHECKS = {
                         "Agc step sizes 0.002..0.2; settling bound derived from the loop contraction |1-2*step| per sample"],
     },
     "C12": {
-        "batches": [("C12", "asan", 4, 12000, 600000)],
+        "batches": [("C12", "asan", 4, 12000, 300000)],
         "rule": ("one evaluation = one simulated history of one adaptive filter (LMS / NLMS / RLS, real or complex, length 2..64, parameters over the stable "
                  "range, unknown noise-free FIR system no longer than the filter, white input): 1-10 events {frame(n), n single-sample frames, lock, unlock} "
                  "followed by a settling phase whose length is the liveness bound computed from the parameters. Non-trivial: >= 1 lock toggle strictly "
@@ -82,7 +82,7 @@ CHECKS = {
                         "finddelay / gccphat / delayseq / peakloc are pure functions of their arguments and are NOT decided by this check"],
     },
     "C19": {
-        "batches": [("C19", "asan", 4, 6000, 400000), ("C19", "tsan", 4, 2000, 100000)],
+        "batches": [("C19", "asan", 4, 6000, 2000000), ("C19", "tsan", 4, 2000, 300000)],
         "rule": ("one evaluation = one simulated run of 1-4 (thorough: 8) threads, each executing a prefix of generator calls (rand / randn / randi in every "
                  "overload incl. single-value and negative ranges, awgn real/complex), rng(s), and a suffix, interleaved by the scheduler at basic-block edges "
                  "(every thread is the other threads' disturbance: they seed and draw between any two of its draws). Non-trivial: >= 2 threads or >= 3 ops; "
@@ -94,8 +94,8 @@ CHECKS = {
         "extra_stubs": [],
     },
     "C10": {
-        "batches": [("C10", "asan", 1, 3000, 200000), ("C10", "asan", 2, 3000, 200000), ("C10", "asan", 4, 3000, 200000)],
-        "rule": ("one evaluation = one simulated history of 8-40 requests (thorough: 2 % of the runs have 10^4 requests over 40 lengths) over an alphabet of "
+        "batches": [("C10", "asan", 1, 3000, 60000), ("C10", "asan", 2, 3000, 60000), ("C10", "asan", 4, 3000, 60000)],
+        "rule": ("one evaluation = one simulated history of 8-40 requests (thorough: 1 % of the runs have 10^4 requests over 40 lengths) over an alphabet of "
                  "3-8 lengths mixing cache-bypass sizes, powers of two, primes <= 41, primes > 41, composites sharing prime sub-plans and even-real lengths: "
                  "fft/rfft/ifft/irfft/fft(x,n)/xcorr/hilbert/FftFilter, construct-and-keep FftPlan/FftPlanR/IfftPlan/IfftPlanR/CztPlan in 4 slots, solve through "
                  "a kept plan, drop it; 1-3 threads in a hand-over chain (a thread exits, its caches are destroyed, its kept plans live on in the successor). "
@@ -108,8 +108,8 @@ CHECKS = {
                         "reproduce its first output bit for bit"],
     },
     "C09": {
-        "batches": [("C09", "asan", 4, 5000, 300000), ("C09", "asan", 1, 1200, 60000), ("C09", "asan", 2, 1200, 60000), ("C09", "tsan", 4, 2000, 80000),
-                    ("C09", "tsan", 1, 500, 20000), ("C09F", "tsan", 4, 160, 3000, 1), ("C09F", "asan", 4, 160, 3000, 1)],
+        "batches": [("C09", "asan", 4, 5000, 150000), ("C09", "asan", 1, 1200, 30000), ("C09", "asan", 2, 1200, 30000), ("C09", "tsan", 4, 2000, 40000),
+                    ("C09", "tsan", 1, 500, 10000), ("C09F", "tsan", 4, 160, 1500, 1), ("C09F", "asan", 4, 160, 1500, 1)],
         "rule": ("one evaluation = one simulated run: 2-8 (thorough: 16) real threads, 3-10 ops each (fft/rfft/ifft/irfft over power-of-two, composite and prime "
                  "lengths, xcorr, FftFilter, welch, mscohere, stft+istft, hilbert, thd/sinad, czt, gccphat, finddelay, medfilt, resample, window::kaiser, a random stream processor, rng/rand/randn/randi/awgn, primes/factor) plus 0-3 plan "
                  "objects (FftPlan, FftPlanR, IfftPlan, IfftPlanR, CztPlan of every length class) created before the threads start and solved concurrently; "
@@ -123,7 +123,7 @@ CHECKS = {
         "required_probes": ["probe.shared_plan_solved_by_2plus_threads", "fault.preempt", "fault.thread_exit_and_cold_restart"],
     },
     "C05": {
-        "batches": [("C05", "asan", 4, 20000, 2000000)],
+        "batches": [("C05", "asan", 4, 20000, 4000000)],
         "rule": ("one evaluation = one call program: 8 pool arrays, then 1-12 ops from a catalogue of 40 op kinds covering the public entry points of include/dsplib/*.h "
                  "(array arithmetic / comparison / index lists / masks / slices incl. initializer lists, container utilities, reductions, fft/ifft/rfft/irfft/hilbert "
                  "with pad/truncate, every plan kind with array and raw-pointer solve, czt, all 24 stream processors, adaptive filters, FIR design, windows, "
